@@ -155,7 +155,10 @@ def _apply_stub(text, target, stub_path):
 def native_replay(crate_dir, harness_name, concrete_vals, target_name, timeout=600):
     """Returns dict(input_found, detail)."""
     if concrete_vals is None:
-        return {"input_found": False, "detail": "verifier printed no concrete values"}
+        # the verifier printed no values (harness without symbolic inputs, or playback timed out):
+        # run the harness natively anyway - the shim hands out zeros, a violated kani::assume is
+        # reported as "not found", and a native failure of the contract assertion is a failing input
+        concrete_vals = []
     rdir = crate_dir.rstrip("/") + "-replay"
     shutil.rmtree(rdir, ignore_errors=True)
     shutil.copytree(crate_dir, rdir, ignore=shutil.ignore_patterns("target"))
